@@ -99,6 +99,12 @@ def next_run_number():
     return n
 
 
+def runs_started():
+    """number of runs started so far in the workspace"""
+    p = Path('tcv_run_counter')
+    return int(p.read_text()) if p.exists() else 0
+
+
 def provenance(task, cid):
     """What a generated run() returns: a JSON term naming the class, the parameters that enter the
     persistence key (by their value repr) and the values of the inputs in declaration order."""
